@@ -176,11 +176,13 @@ class ImplWorld:
             ctx.ev.append(f"S{tid}({canon_arg(x, k, s)})")
             ctx.live.add(tid)
             ctx.note_live()
+            # every other task *returns* an exception instance (errors as values): a value like any other
+            val = Boom("a returned value, not a failure") if tid % 2 else None
             try:
                 W.run_hooks(ctx, hooks_start, holder)
                 if mode == "r":
                     ctx.ev.append(f"R{tid}")
-                    return None
+                    return val
                 if mode == "x":
                     ctx.ev.append(f"E{tid}")
                     raise Boom("w")
@@ -192,12 +194,13 @@ class ImplWorld:
                     ctx.ev.append(f"X{tid}")
                     if swallow:
                         ctx.ev.append(f"R{tid}")
-                        return None
+                        return val
                     raise
                 except Boom:
                     ctx.ev.append(f"E{tid}")
                     raise
                 ctx.ev.append(f"R{tid}")
+                return val
             finally:
                 ctx.live.discard(tid)
         # every other worker function is handed to the pool as a `functools.partial` object: a coroutine function as far
@@ -347,6 +350,8 @@ class ImplWorld:
                     for i, c in enumerate(its):
                         ctx.ev.append(f"P{m}:{i}")
                         W.run_hooks(ctx, hk["p"], holder)
+                        if c == "2":
+                            raise Boom("the argument iterator raises instead of yielding")
                         if c == "1":
                             # an element the call rejects; of varied shape (hashable or not) where the variant allows
                             if stars == 1 and i % 2 == 1:
